@@ -352,7 +352,7 @@ def run(ctx):
         check_handle_registry(ctx, prog, tag)
     # positive control
     cprog = ctx.controls
-    sub = type(ctx)(ctx.prop, ctx.tier, ctx.repo)
+    sub = ctx.fresh()
     for fpath in ("mjsa_controls::c16::leaky_filter",):
         check_char_filter(sub, cprog, cprog.fn(fpath), "C16.T1", "control", FORBIDDEN,
                           safe="mjsa_controls::c16::Value::from_safe_string")
